@@ -2580,6 +2580,9 @@ impl HnswBackend {
 
         let mut meta_index = self.metadata_index.write();
         meta_index.remove_doc(internal_id as u64, &old_metadata);
+        // Must not stay locked across `create_snapshot` below (it takes `snapshot_lock.write()`
+        // while writers holding `snapshot_lock.read()` wait for this guard).
+        drop(meta_index);
 
         drop(write_gate_guard);
         drop(snapshot_guard);
